@@ -558,8 +558,11 @@ class Expander:
         module: imported there under the same name from the same place, or not in use there at all (then the import is added).
         -> {local name: dotted target} to import, or None."""
         import builtins
-        if r.cls is not None or r.outer is not None:
+        if r.outer is not None:
             return None
+        if r.cls is not None and any((isinstance(x, ast.Attribute) and x.attr.startswith("__") and not x.attr.endswith("__")) or
+                                     (isinstance(x, ast.Name) and x.id in ("__class__", "super")) for x in ast.walk(r.node)):
+            return None     # class-private names are mangled with the name of the class they are written in
         key = (r.key, caller.module.rel)
         if key in self._foreign_memo:
             return self._foreign_memo[key]
